@@ -20,8 +20,16 @@
 (* then ERROR with HREADYOUT high), OKAY otherwise.                        *)
 (* c: lanes, words, init, addrs (byte addresses used), sizes, datas (write *)
 (*    data patterns), dirs, badlo                                          *)
+(*    xfers (optional): explicit list of <<addr, write, size>> the master  *)
+(*    uses instead of addrs x {read, write} x sizes (keeps the memory and  *)
+(*    read-data register state space of 64-bit buses small)                *)
+(*    nosel = 1 (optional): the master may also present trans = 2: a       *)
+(*    NONSEQ address phase with HSEL low (a transfer to another slave of   *)
+(*    the AHB segment), with the attributes of any transfer.  It is not a  *)
+(*    transfer to this slave: no data phase follows, the zero-wait OKAY    *)
+(*    clause applies and the memory does not change.                       *)
 (***************************************************************************)
-EXTENDS Integers, Sequences, FiniteSets, TLC
+EXTENDS Integers, Sequences, FiniteSets, TLC, BridgeWit
 
 VARIABLES mem, ms, mobs
 
@@ -37,12 +45,16 @@ MInit(c) ==
              wwait |-> FALSE, rwait |-> FALSE, mfair |-> TRUE]
 
 Transfers(c) ==
+  IF "xfers" \in DOMAIN c /\ c.xfers # <<>>
+  THEN { <<c.xfers[i][1], c.xfers[i][2], c.xfers[i][3]>> : i \in { j \in 1..Len(c.xfers) : c.xfers[j][1] % (2^c.xfers[j][3]) = 0 } }
+  ELSE
   { <<a, w, sz>> \in { c.addrs[i] : i \in 1..Len(c.addrs) } \X {0, 1} \X { c.sizes[i] : i \in 1..Len(c.sizes) } :
       (a % (2^sz)) = 0 /\ (c.dirs = "w" => w = 1) /\ (c.dirs = "r" => w = 0) }
 
 MInputs(c) ==
   LET APs == IF ms.ap # <<>> THEN { <<1>> \o ms.ap }
-             ELSE { <<0, 0, 0, 0>> } \cup { <<1>> \o t : t \in Transfers(c) }
+             ELSE { <<0, 0, 0, 0>> } \cup { <<1>> \o t : t \in Transfers(c) } \cup
+                  (IF Flag(c, "nosel") THEN { <<2>> \o t : t \in Transfers(c) } ELSE {})
       WDs == IF ms.dp # <<>> /\ ms.dp[2] = 1
              THEN (IF ms.dp[4] = 0 THEN { c.datas[i] : i \in 1..Len(c.datas) } ELSE { c.datas[ms.dp[4]] })
              ELSE {0}
@@ -84,6 +96,10 @@ MStep(c, miv, mo) ==
               wwait  |-> act /\ ~ready,
               rwait  |-> FALSE,
               mfair  |-> TRUE]
+  /\ WitIf(miv[1] = 2, c, 4, "NONSEQ without sel")
+  /\ WitIf(done /\ wr /\ ~resp /\ sz = 3, c, 1, "64-bit write")
+  /\ WitIf(done /\ ~wr /\ ~resp /\ sz = 3, c, 2, "64-bit read")
+  /\ WitIf(done /\ wr /\ ~resp /\ sz < 3 /\ a % c.lanes >= 4, c, 3, "narrow write to upper half")
 
 MEvents(c, miv, mo) == [wdone |-> FALSE, wany |-> FALSE, rdone |-> FALSE]
 
